@@ -166,21 +166,19 @@ func (fst *FSTree) Query(q *query.Query, local, internal bool) (*iterator.Iterat
 		return nil, fmt.Errorf("invalid query: %w", err)
 	}
 
-	walkPrefix, err := fst.buildFilePath(q.DatabaseKeyPrefix(), false)
+	keyPrefix := q.DatabaseKeyPrefix()
+	walkPrefix, err := fst.buildFilePath(keyPrefix, false)
 	if err != nil {
 		return nil, err
 	}
-	fileInfo, err := os.Stat(walkPrefix)
-	var walkRoot string
-	switch {
-	case err == nil && fileInfo.IsDir():
-		walkRoot = walkPrefix
-	case err == nil:
+	// Only a prefix that names a whole directory (empty or ending with a
+	// separator) can be walked directly. Any other prefix also matches siblings
+	// that merely start with its last element ("a/b" matches "a/b", "a/bc" and
+	// "a/b/c"), so the walk must start at the parent directory. The query
+	// executor checks every key against the prefix.
+	walkRoot := walkPrefix
+	if keyPrefix != "" && !strings.HasSuffix(keyPrefix, "/") {
 		walkRoot = filepath.Dir(walkPrefix)
-	case errors.Is(err, fs.ErrNotExist):
-		walkRoot = filepath.Dir(walkPrefix)
-	default: // err != nil
-		return nil, fmt.Errorf("fstree: could not stat query root %s: %w", walkPrefix, err)
 	}
 
 	queryIter := iterator.New()
@@ -192,6 +190,10 @@ func (fst *FSTree) Query(q *query.Query, local, internal bool) (*iterator.Iterat
 func (fst *FSTree) queryExecutor(walkRoot string, queryIter *iterator.Iterator, q *query.Query, local, internal bool) {
 	err := filepath.Walk(walkRoot, func(path string, info os.FileInfo, err error) error {
 		if err != nil {
+			// A missing walk root means that there are no keys with the queried prefix.
+			if errors.Is(err, fs.ErrNotExist) {
+				return nil
+			}
 			return fmt.Errorf("fstree: error in walking fs: %w", err)
 		}
 
@@ -209,6 +211,15 @@ func (fst *FSTree) queryExecutor(walkRoot string, queryIter *iterator.Iterator, 
 			return nil
 		}
 
+		// get key and check it against the key prefix of the query
+		key, err := filepath.Rel(fst.basePath, path)
+		if err != nil {
+			return fmt.Errorf("fstree: failed to extract key from filepath %s: %w", path, err)
+		}
+		if !q.MatchesKey(filepath.ToSlash(key)) {
+			return nil
+		}
+
 		// read file
 		data, err := os.ReadFile(path)
 		if err != nil {
@@ -219,10 +230,6 @@ func (fst *FSTree) queryExecutor(walkRoot string, queryIter *iterator.Iterator, 
 		}
 
 		// parse
-		key, err := filepath.Rel(fst.basePath, path)
-		if err != nil {
-			return fmt.Errorf("fstree: failed to extract key from filepath %s: %w", path, err)
-		}
 		r, err := record.NewRawWrapper(fst.name, key, data)
 		if err != nil {
 			return fmt.Errorf("fstree: failed to load file %s: %w", path, err)
